@@ -321,6 +321,131 @@ fn at_drop(id: u8) {
     }
 }
 
+/// `clone_from` (provided by std unless the crate overrides it to recycle the target's
+/// allocations): every `Clone::clone` call is user code that may panic. At every such call the
+/// TARGET world must be droppable and usable: Inv, and every component readable in it is alive
+/// (not yet dropped) and stored once.
+pub fn callbacks_clone_from<const N: usize>() {
+    use wt::*;
+    reset();
+    let s: Model<N> = Model::any_inv();
+    let t: Model<N> = Model::any_inv();
+    let mut i = 0;
+    while i < N {
+        sym::assume(s.val[i] == i as u8);
+        sym::assume(t.val[i] == 4 + i as u8);
+        i += 1;
+    }
+    let src = load::<TokM, N>(&s);
+    let mut dst = load::<TokM, N>(&t);
+    let world_level = sym::any_bool();
+    unsafe {
+        WORLD = &mut dst as *mut WT as *mut u8;
+        CB_CALLS = 0;
+        ON_CLONE = Some(at_clone_from::<N>);
+        if world_level {
+            (*(WORLD as *mut WT)).clone_from(&src);
+        } else {
+            (*(WORLD as *mut WT)).arch_tok.clone_from(&src.arch_tok);
+        }
+        assert!(CB_CALLS as usize == s.len, "Clone::clone not called once per live source component");
+        ON_CLONE = None;
+    }
+    cover!(N < 2 || (t.len > s.len && s.len > 0), "non-empty target longer than the source");
+    cover!(N < 2 || (t.len > 0 && t.len < s.len), "non-empty target shorter than the source");
+    std::mem::forget(src);
+    std::mem::forget(dst);
+}
+
+fn at_clone_from<const N: usize>(_id: u8) {
+    unsafe {
+        CB_CALLS += 1;
+        let world = &mut *(WORLD as *mut wt::WT);
+        let now: Model<N> = read::<wt::TokM, N>(world);
+        assert!(now.inv(), "C10: target of clone_from broken at a Clone::clone callback");
+        let mut i = 0;
+        while i < N {
+            if i < now.len {
+                let id = now.val[i] as usize;
+                assert!(id < 16 && wt::DROPS[id] == 0, "C10: a component already dropped is still readable in the target of clone_from at a Clone::clone callback");
+                let mut j = 0;
+                while j < N {
+                    if j < i {
+                        assert!(now.val[j] != now.val[i], "C10: a component is stored twice in the target of clone_from at a Clone::clone callback");
+                    }
+                    j += 1;
+                }
+            }
+            i += 1;
+        }
+    }
+}
+
+pub static mut DROP_TARGET: usize = usize::MAX;
+
+/// A component's `Drop::drop` running INSIDE a destroy (keys that discard the components:
+/// `World::destroy(EntityAny | EntityDirectAny)`, `ecs_iter_destroy!`) is user code that may
+/// panic: when it runs the destroy's bookkeeping must be complete — Inv, the target entity fully
+/// absent, every other entity whole, the value being dropped no longer readable.
+pub fn drop_point_destroy<const N: usize>(kind: u8) {
+    use wt::*;
+    reset();
+    let m: Model<N> = Model::any_inv();
+    assume_no_overflow(&m);
+    let mut i = 0;
+    while i < N {
+        sym::assume(m.val[i] == i as u8);
+        i += 1;
+    }
+    let mut world = load::<TokM, N>(&m);
+    let k = sym::any_usize();
+    sym::assume(k < m.len);
+    let (key, ver) = m.handle_raw(TokM::ID, k);
+    let any = EntityAny::from_raw((key, ver)).ok().unwrap();
+    unsafe {
+        WORLD = &mut world as *mut WT as *mut u8;
+        PRE = &m as *const Model<N> as *const u8;
+        DROP_TARGET = k;
+        CB_CALLS = 0;
+        ON_DROP = Some(at_drop_in_destroy::<N>);
+        let w = &mut *(WORLD as *mut WT);
+        match kind {
+            0 => assert!(w.destroy(any).is_some()),
+            1 => {
+                let d: EntityDirectAny = direct_of::<TokM>(k, m.version).into();
+                assert!(w.destroy(d).is_some());
+            }
+            _ => {
+                ecs_iter_destroy!(w, |t: &Tok| {
+                    if t.0 as usize == k { EcsStepDestroy::ContinueDestroy } else { EcsStepDestroy::Continue }
+                });
+            }
+        }
+        ON_DROP = None;
+        assert!(CB_CALLS == 1, "the discarded components were not dropped exactly once inside the destroy");
+    }
+    cover!(N < 2 || k + 1 < m.len, "destroyed a non-last entity");
+    std::mem::forget(world);
+}
+
+fn at_drop_in_destroy<const N: usize>(id: u8) {
+    unsafe {
+        CB_CALLS += 1;
+        let world = &mut *(WORLD as *mut wt::WT);
+        let pre = &*(PRE as *const Model<N>);
+        assert!(id as usize == DROP_TARGET, "C10: destroy dropped another entity's component");
+        let now: Model<N> = read::<wt::TokM, N>(world);
+        assert_destroyed::<wt::TokM, N>(pre, &now, DROP_TARGET);
+        let mut i = 0;
+        while i < N {
+            if i < now.len {
+                assert!(now.val[i] != id, "C10: the component being dropped inside destroy is still readable in the world");
+            }
+            i += 1;
+        }
+    }
+}
+
 /// Capacity overflow panics: `create` at len == capacity == 2^24 and `with_capacity(> 2^24)`
 /// panic before touching anything.
 pub fn capacity_overflow_create() {
@@ -384,6 +509,11 @@ harness! {
 }
 harness! { fn c10_callbacks_clone_drop_3() unwind(18) { callbacks_clone_drop::<3>() } }
 harness! { fn c10_callbacks_clone_drop_2() unwind(18) { callbacks_clone_drop::<2>() } }
+harness! { fn c10_callbacks_clone_from_3() unwind(18) { callbacks_clone_from::<3>() } }
+harness! { fn c10_callbacks_clone_from_2() unwind(18) { callbacks_clone_from::<2>() } }
+harness! { fn c10_drop_point_destroy_any_3() unwind(18) { drop_point_destroy::<3>(0) } }
+harness! { fn c10_drop_point_destroy_directany_2() unwind(18) { drop_point_destroy::<2>(1) } }
+harness! { fn c10_drop_point_iter_destroy_3() unwind(18) { drop_point_destroy::<3>(2) } }
 harness! { fn c10_capacity_overflow_create() unwind(3) { capacity_overflow_create() } }
 harness! { fn c10_capacity_overflow_with_capacity() unwind(3) { capacity_overflow_with_capacity() } }
 
